@@ -5,9 +5,9 @@
      the successor walk that starts at the first section with hash >= v.
    corr_ok requires the implementation's answers to equal BOTH. The theorems of
    Properties/C20.v are about the specification. *)
-From Coq Require Import ZArith List Bool Arith.
+From Coq Require Import ZArith List Bool Arith Sorting.Mergesort Orders.
 Import ListNotations.
-From Verif Require Import Lib.Corr Lib.Hashring_Ketama Gen.C20.
+From Verif Require Import Lib.Corr Lib.Hashring_Ketama Lib.Hashring_Answers Gen.C20.
 Close Scope Z_scope.
 
 (* first occurrences, in order *)
@@ -34,12 +34,50 @@ Definition ins {A} (p : nat) (e : A) (l : list A) : list A := firstn p l ++ e ::
 (* position of an old endpoint in the new list *)
 Definition iota (p k : nat) : nat := if k <? p then k else S k.
 
+(* ---- the ring inside the multi-hashring built by NewMultiHashring ----
+   The ketama ring keeps the endpoint slice of the configuration and its sections
+   refer to it by index. NewMultiHashring collects the nodes of all hashrings in
+   m.nodes and finally sorts m.nodes by address. [copied] = m.nodes is a copy
+   (read from the source: Gen.C20.nodes_copied); if it were the ring's own slice, the
+   sort would reorder the ring's endpoints after the sections were built.
+   Addresses are order-preserving integer ids. *)
+Module AddrOrder <: TotalLeBool.
+  Definition t := Z.
+  Definition leb (a b : Z) : bool := (a <=? b)%Z.
+  Theorem leb_total : forall a b, leb a b = true \/ leb b a = true.
+  Proof. intros a b. unfold leb. destruct (Z.leb_spec a b); [now left|right]. apply Z.leb_le. apply Z.lt_le_incl. assumption. Qed.
+End AddrOrder.
+Module AddrSort := Sort AddrOrder.
+
+(* the address stored at index i of the ring's endpoint slice once the constructor has returned *)
+Definition ring_endpoint_gen (copied : bool) (addrs : list Z) (i : nat) : Z :=
+  nth i (if copied then addrs else AddrSort.sort addrs) (-1)%Z.
+Definition ring_endpoint := ring_endpoint_gen nodes_copied.
+
+(* Hashring.GetN of the multi-hashring with a single ketama config, n = 0..rf-1, as addresses *)
+Definition multi_getn_gen (copied : bool) (addrs : list Z) (eps : list (Z * list Z)) (rf : nat) (v : Z) : option (list Z) :=
+  option_map (map (ring_endpoint_gen copied addrs)) (ketama_answers eps rf v).
+Definition multi_getn := multi_getn_gen nodes_copied.
+
+Fixpoint index_of_z (x : Z) (l : list Z) : nat :=
+  match l with
+  | [] => 0
+  | y :: r => if (x =? y)%Z then 0 else S (index_of_z x r)
+  end.
+(* position in the configured endpoint list of the node answered for ring index i *)
+Definition answered_pos (addrs : list Z) (i : nat) : nat := index_of_z (ring_endpoint addrs i) addrs.
+
 Inductive case :=
 | CAdd (hs : list (list Z))          (* old endpoints: ranks of their section hashes *)
        (p : nat) (e : list Z)        (* the added endpoint and its position in the new list *)
        (rf : nat)
-       (qs : list (Z * list nat * list nat)).
+       (qs : list (Z * list nat * list nat))
          (* per series: hash rank; GetN answers n = 0..rf-1 before (old positions) / after (new positions) *)
+(* the same through the public NewMultiHashring (one ketama config, endpoint list in
+   arbitrary order); additionally the address ids of the old endpoints and of the new one *)
+| CAddM (addrs : list Z) (a_new : Z)
+        (hs : list (list Z)) (p : nat) (e : list Z) (rf : nat)
+        (qs : list (Z * list nat * list nat)).
 
 Definition q_eqb (a b : list nat) := list_eqb Nat.eqb a b.
 
@@ -72,6 +110,16 @@ Definition corr_ok (c : case) : bool :=
               option_eqb q_eqb (loop_query (length hs) rf k v) (Some a)
               && option_eqb q_eqb (loop_query (length hs') rf k' v) (Some a'))
         end) qs
+  | CAddM addrs a_new hs p e rf qs =>
+      let hs' := ins p e hs in
+      let addrs' := ins p a_new addrs in
+      let r := spec_ring hs in
+      let r' := spec_ring hs' in
+      forallb (fun q =>
+        match q with (v, a, a') =>
+          q_eqb (map (answered_pos addrs) (spec_answers r rf v)) a
+          && q_eqb (map (answered_pos addrs') (spec_answers r' rf v)) a'
+        end) qs
   end.
 
 Definition mem (x : nat) (l : list nat) : bool := existsb (Nat.eqb x) l.
@@ -89,4 +137,5 @@ Definition only_onto_new (p : nat) (a a' : list nat) : bool := only_onto_new_gen
 Definition pred_ok (c : case) : bool :=
   match c with
   | CAdd hs p e rf qs => forallb (fun q => match q with (_, a, a') => only_onto_new p a a' end) qs
+  | CAddM _ _ hs p e rf qs => forallb (fun q => match q with (_, a, a') => only_onto_new p a a' end) qs
   end.
